@@ -21,6 +21,12 @@ def gen_case(rng):
         kind = rng.choice(["run_command", "run_experiment", "run_experiment", "group", "combine"]) if not all_exp else "run_experiment"
         pkg = rng.choice(pk)
         name = "d%d" % i
+        if i and rng.random() < 0.25:
+            # names that differ only by a suffix a careless implementation might use for temporaries
+            name = tasks[-1]["name"] + rng.choice(["-new", "-old", "_tmp", "-1"])
+            if i >= 2 and rng.random() < 0.5:
+                # ... listed BEFORE the name it extends
+                pass
         sub = []
         if kind in ("group", "combine") and tasks and rng.random() < 0.8:
             sub = [t["id"] for t in rng.sample(tasks, min(len(tasks), rng.randint(1, 2))) if t["kind"] != "group" or kind == "group"]
@@ -34,6 +40,9 @@ def gen_case(rng):
     cpkg = rng.choice(pk)
     deps = [t["id"] for t in tasks]
     rng.shuffle(deps)
+    if rng.random() < 0.5:
+        # longer names first ("fit-new" before "fit")
+        deps.sort(key=lambda x: -len(x))
     comb = gen.mk_task(cpkg, "comb", "combine", deps)
     sib = gen.mk_task(rng.choice(pk), "sib", "run_command", deps)
     scripts[sib["id"]] = {"steps": []}
@@ -57,7 +66,7 @@ def gen_case(rng):
     conflict = None
     if rng.random() < 0.3:
         conflict = {"dep": rng.choice(deps), "kind": rng.choice(["file", "dir", "foreign-symlink"]), "before": rng.randrange(len(hist))}
-    return {"tasks": gen.dump(tasks), "scripts": scripts, "history": hist, "conflict": conflict, "comb": comb["id"], "sib": sib["id"]}
+    return {"tasks": gen.dump(tasks), "scripts": scripts, "history": hist, "conflict": conflict, "comb": comb["id"], "sib": sib["id"], "condout_symlink": rng.random() < 0.2}
 
 
 def nonempty_dir(p):
@@ -79,6 +88,11 @@ def eval_case(case):
     with common.Scratch("cv18") as sc:
         tasks = [gen.Task(t) for t in case["tasks"]]
         pr = realrun.Project(sc.root, tasks, case["scripts"])
+        if case.get("condout_symlink"):
+            # cond-out on other storage, reached through a symbolic link at a different directory depth
+            real_out = os.path.join(sc.root, "storage", "vol1", "deeper", "cond-out-real")
+            os.makedirs(real_out)
+            os.symlink(real_out, os.path.join(pr.root, "cond-out"))
         tb = pr.tb
         comb = tb[case["comb"]]
         cout = pr.out_dir(comb["id"])
